@@ -422,6 +422,7 @@ type history struct {
 	log      [][]string
 	// classification
 	searchesPerExpr map[int]int
+	histJSON        []byte
 	failedBefore    map[int]bool
 	otherDocBefore  map[int]map[int]bool
 	kept            []keptResult
@@ -450,6 +451,15 @@ func atoi(s string) int {
 // apply executes one action and checks the model; it returns a violation description or "".
 func (h *history) apply(a []string) (violation, expected, got string) {
 	h.log = append(h.log, a)
+	if crumbEnabled() {
+		// incremental: only the new action is serialised
+		b, _ := json.Marshal(a)
+		if len(h.histJSON) > 0 {
+			h.histJSON = append(h.histJSON, ',')
+		}
+		h.histJSON = append(h.histJSON, b...)
+		leaveCrumbRaw([]byte(`{"property":"C13","kind":"history","extra":{"history":[`), h.histJSON, []byte(`]}}`))
+	}
 	switch a[0] {
 	case "compile":
 		c, err, pan := libCompile(a[1])
